@@ -495,6 +495,12 @@ func c18AttrRT(c *c18Ctx, n0 bgp.PathAttributeInterface, o *c18OptSet, origin st
 			map[string]any{"case": c.idx, "wire": c18Hex(w0), "api": c18JSON(a1), "options": o.Key})
 	case !bytes.Equal(w0, w1):
 		for _, cls := range strings.Split(c18AttrDiffClass(n0, n1, w0, w1, o), "+") { // (one key per differing TLV type)
+			if typ == "PathAttributeLs" && cls == "tlv-order" {
+				// the same TLVs in another order: the order of the TLVs of a BGP-LS attribute carries no
+				// meaning (RFC 7752 3.3) and the API groups them by kind, so it cannot be kept
+				c.rec.Count("ls_attribute_tlvs_reordered", 1)
+				continue
+			}
 			if strings.HasPrefix(cls, "nlri:") {
 				c.rec.Count("mp_nlri_differs:"+cls, 1) // reported by the NLRI cases (c18:nlri:n2a2n:wire:...)
 				continue
